@@ -74,7 +74,9 @@ func (q *queue) len() uint64 {
 func (q *queue) push(ctx context.Context) (EvictFunc, <-chan core.Listener) {
 	q.mu.Lock()
 	defer q.mu.Unlock()
-	releaseChan := make(chan core.Listener)
+	// buffered: unblock hands the listener over under the limiter lock without needing the
+	// waiter to be parked in its select at that very moment
+	releaseChan := make(chan core.Listener, 1)
 
 	e := &queueElement{ctx: ctx, releaseChan: releaseChan}
 
@@ -276,8 +278,19 @@ func (l *QueueBlockingLimiter) tryAcquire(ctx context.Context) core.Listener {
 		return listener
 	}
 
+	// Slow path: re-check and enqueue under the lock unblock takes, so that a token released
+	// after the failed attempt above is either seen by the re-check or handed by unblock to
+	// the element pushed here (and so that the backlog bound is checked atomically with the push).
+	l.mu.Lock()
+	listener, ok = l.delegate.Acquire(ctx)
+	if ok && listener != nil {
+		l.mu.Unlock()
+		return listener
+	}
+
 	// Restrict backlog size so the queue doesn't grow unbounded during an outage
 	if l.backlog.len() >= l.maxBacklogSize {
+		l.mu.Unlock()
 		return nil
 	}
 
@@ -286,6 +299,7 @@ func (l *QueueBlockingLimiter) tryAcquire(ctx context.Context) core.Listener {
 	// ordering was configured when backlog was instantiated
 	verifPoint("queue.before_push")
 	evict, eventReleaseChan := l.backlog.push(ctx)
+	l.mu.Unlock()
 	verifPoint("queue.after_push")
 
 	// We're using a nil chan so that we
@@ -315,13 +329,26 @@ func (l *QueueBlockingLimiter) tryAcquire(ctx context.Context) core.Listener {
 		return listener
 	case <-backlogTimeout:
 		// Remove the holder from the backlog.
-		evict()
-		return nil
+		return l.giveUp(evict, eventReleaseChan)
 	case <-ctxDone:
 		// The context has been cancelled before `maxBacklogTimeout`
 		// could elapse. Since this context no longer needs a listener
 		// we evict it from the backlog to free up space.
-		evict()
+		return l.giveUp(evict, eventReleaseChan)
+	}
+}
+
+// giveUp removes a waiter from the backlog. unblock evicts and hands over under the limiter
+// lock, so after the eviction here no hand-off can target this waiter any more; a listener
+// handed over just before is taken rather than lost (the next waiter would not be served).
+func (l *QueueBlockingLimiter) giveUp(evict EvictFunc, eventReleaseChan <-chan core.Listener) core.Listener {
+	l.mu.Lock()
+	evict()
+	l.mu.Unlock()
+	select {
+	case listener := <-eventReleaseChan:
+		return listener
+	default:
 		return nil
 	}
 }
